@@ -13,6 +13,8 @@
 # with this program; if not, write to the Free Software Foundation, Inc.,
 # 51 Franklin Street, Fifth Floor, Boston, MA  02110-1301, USA.
 
+import copy
+
 import numpy
 from scipy import stats
 
@@ -511,10 +513,11 @@ class SSAdaptiveSupport(BaseAdaptiveSupport):
                  'n_accepted': self.n_accepted,
                  'nsteps': self._nsteps,
                  'start_step': self.start_step}
+        # note: the arrays are updated in place, so the state needs copies
         if self.isdiagonal:
-            state.update({'std': self._std})
+            state.update({'std': self._std.copy()})
         else:
-            state.update({'cov': self._cov})
+            state.update({'cov': self._cov.copy()})
         return state
 
     def set_state(self, state):
@@ -523,9 +526,9 @@ class SSAdaptiveSupport(BaseAdaptiveSupport):
         self._nsteps = state['nsteps']
         self.start_step = state['start_step']
         if self.isdiagonal:
-            self._std = state['std']
+            self._std = state['std'].copy()
         else:
-            self._cov = state['cov']
+            self._cov = state['cov'].copy()
         self._update_proposal()
 
 
@@ -733,29 +736,30 @@ class ATAdaptiveSupport(BaseAdaptiveSupport):
 
     @property
     def state(self):
+        # note: the arrays are updated in place, so the state needs copies
         state = {'random_state': self.random_state,
-                 'mean': self._mean,
-                 'log_lambda': self._log_lambda,
-                 'unit_cov': self._unit_cov,
+                 'mean': self._mean.copy(),
+                 'log_lambda': copy.copy(self._log_lambda),
+                 'unit_cov': self._unit_cov.copy(),
                  'nsteps': self._nsteps,
                  'start_step': self.start_step}
         if self.isdiagonal:
-            state.update({'std': self._std})
+            state.update({'std': self._std.copy()})
         else:
-            state.update({'cov': self._cov})
+            state.update({'cov': self._cov.copy()})
         return state
 
     def set_state(self, state):
         self.random_state = state['random_state']
-        self._mean = state['mean']
-        self._log_lambda = state['log_lambda']
-        self._unit_cov = state['unit_cov']
+        self._mean = state['mean'].copy()
+        self._log_lambda = copy.copy(state['log_lambda'])
+        self._unit_cov = state['unit_cov'].copy()
         self._nsteps = state['nsteps']
         self.start_step = state['start_step']
         if self.isdiagonal:
-            self._std = state['std']
+            self._std = state['std'].copy()
         else:
-            self._cov = state['cov']
+            self._cov = state['cov'].copy()
         self._update_proposal()
 
 
